@@ -69,3 +69,21 @@ Definition writable (mem : list fkind) : bool :=
 Definition solo_results (mem : list fkind) (os : list op) (ts : list thread) : Prop :=
   forall i o t, nth_error os i = Some o -> nth_error ts i = Some t ->
     finished t = true -> out t = spec_out mem o /\ dead t = false.
+
+(* ---- the parallel adaptors: every consumer of iterator.parallel() returns what the same
+   consumer returns on the sequential iterator, the order of the items included ---- *)
+From Coq Require Import ZArith.
+
+(* position-weighted sum of a sequence, positions counted from i *)
+Fixpoint weighted (a b : Z) (i : Z) (l : list Z) : Z :=
+  match l with
+  | [] => 0%Z
+  | h :: r => ((i + a) * (h + b) + weighted a b (i + 1) r)%Z
+  end.
+
+Definition seq_consumers (l : list Z) : list Z :=
+  [Z.of_nat (length l);
+   (weighted 1 1 0 l mod ck_mod)%Z;
+   (weighted 2 3 0 l mod ck_mod)%Z;
+   match find wanted l with Some h => h | None => (-1)%Z end;
+   (weighted 1 1 0 (filter (fun h => Z.eqb (h mod 3) 0) l) mod ck_mod)%Z].
